@@ -361,6 +361,24 @@ func (k *c39Contract) readCase(msgs []c39Msg, r int) string {
 	return ""
 }
 
+func c39SessionHuge() (stream []byte, bounds []int) {
+	big := make([]byte, 3<<19)
+	for i := range big {
+		big[i] = byte('a' + i%23)
+	}
+	pks := []ref.Packet{
+		world.ConnectPacket("c", 4, true),
+		{Type: ref.PUBLISH, Topic: "x", Payload: big, Qos: 1, PacketID: 2},
+		{Type: ref.PINGREQ},
+		{Type: ref.DISCONNECT},
+	}
+	for _, p := range pks {
+		stream = append(stream, ref.Encode(p, 4, ref.EncOpts{})...)
+		bounds = append(bounds, len(stream))
+	}
+	return
+}
+
 func c39Cuts(n, k int) [][]int {
 	var out [][]int
 	var rec func(start int, cur []int)
@@ -565,6 +583,23 @@ func init() {
 				}
 			}
 		}
+		// third session: one PUBLISH of 1.5 MiB (no limit applies over TCP: the default maximum
+		// packet size is unlimited), as one message per packet, as a single message, and cut in half
+		streamH, boundsH := c39SessionHuge()
+		mkH := func(cut []int) []c39Msg {
+			var msgs []c39Msg
+			prev := 0
+			for _, x := range append(append([]int{}, cut...), len(streamH)) {
+				msgs = append(msgs, c39Msg{Data: streamH[prev:x]})
+				prev = x
+			}
+			return msgs
+		}
+		jobs = append(jobs, job{mkH(nil), "huge cuts=[]", -1, 0, 2}, job{mkH(boundsH[:len(boundsH)-1]), "huge cuts=packet boundaries", -1, 0, 2}, job{mkH([]int{len(streamH) / 2}), "huge cuts=[half]", -1, 0, 2})
+		wantH := servers[0].runTCP(streamH)
+		if len(wantH.processed) < 3 {
+			c.Rep.Add(explore.Violation{Key: "internal:reference-run", Msg: fmt.Sprintf("TCP-equivalent run of the 1.5 MiB session processed only %v", wantH.processed)})
+		}
 		wantB := servers[0].runTCP(streamB)
 		c.Rep.Sample(map[string]any{"big_session_len": len(streamB), "big_session_cut_positions": len(pos), "big_tcp_equivalent_processed": wantB.processed})
 		want := servers[0].runTCP(stream)
@@ -589,6 +624,9 @@ func init() {
 					want, bounds := want, bounds
 					if j.sess == 1 {
 						want, bounds = wantB, boundsB
+					}
+					if j.sess == 2 {
+						want, bounds = wantH, boundsH
 					}
 					got := s.runWS(j.msgs)
 					atomic.AddInt64(&evals, 1)
